@@ -24,7 +24,10 @@ type Config struct {
 	AutoID, Attr                 bool
 	Unsafe, XHTML, HardWraps     bool
 	TableAlign                   int // 0 default, 1 attribute, 2 style, 3 none
+	FnPrefix                     int // footnote id prefix: 0 none, 1 "x-", 2 "doc-", 3 "article12-"
 }
+
+var fnPrefixes = []string{"", "x-", "doc-", "article12-"}
 
 // String is the canonical, parseable name.
 func (c Config) String() string {
@@ -52,6 +55,9 @@ func (c Config) String() string {
 	add(c.HardWraps, "hardwraps")
 	if c.TableAlign != 0 {
 		p = append(p, "ta"+string(rune('0'+c.TableAlign)))
+	}
+	if c.FnPrefix != 0 && c.Footnote {
+		p = append(p, "fnp"+string(rune('0'+c.FnPrefix)))
 	}
 	if len(p) == 0 {
 		return "core"
@@ -96,6 +102,9 @@ func ParseConfig(s string) Config {
 			}
 			if strings.HasPrefix(tok, "ta") && len(tok) == 3 {
 				c.TableAlign = int(tok[2] - '0')
+			}
+			if strings.HasPrefix(tok, "fnp") && len(tok) == 4 {
+				c.FnPrefix = int(tok[3]-'0') % len(fnPrefixes)
 			}
 		}
 	}
@@ -150,7 +159,11 @@ func (c Config) Extensions() []goldmark.Extender {
 		exts = append(exts, extension.DefinitionList)
 	}
 	if c.Footnote {
-		exts = append(exts, extension.Footnote)
+		if c.FnPrefix != 0 {
+			exts = append(exts, extension.NewFootnote(extension.WithFootnoteIDPrefix(fnPrefixes[c.FnPrefix%len(fnPrefixes)])))
+		} else {
+			exts = append(exts, extension.Footnote)
+		}
 	}
 	if c.Typo {
 		exts = append(exts, extension.Typographer)
@@ -239,6 +252,7 @@ var Representative = []Config{
 	{Linkify: true, Typo: true},
 	{Table: true, TableAlign: 2, Attr: true},
 	{Table: true, Strike: true, Task: true, Footnote: true, XHTML: true},
+	{GFM: true, Footnote: true, FnPrefix: 2, Typo: true},
 }
 
 // ConfigOpts restricts DrawConfig.
@@ -272,6 +286,9 @@ func DrawConfig(t *rapid.T, o ConfigOpts) Config {
 		if b(17) {
 			c.TableAlign = int((bits >> 18) % 4)
 		}
+		if b(20) && b(21) {
+			c.FnPrefix = 1 + int((bits>>22)%3)
+		}
 	}
 	if o.SafeOnly {
 		c.Unsafe = false
@@ -287,6 +304,9 @@ func DrawConfig(t *rapid.T, o ConfigOpts) Config {
 	}
 	if o.ForceAuto {
 		c.AutoID = true
+	}
+	if !c.Footnote {
+		c.FnPrefix = 0
 	}
 	if !c.HasTable() {
 		c.TableAlign = 0
